@@ -26,4 +26,11 @@ MUTANTS = [
  ('c18-unit-range-ff', 'C18', 'pymodbus/datastore/context.py', "        if 0xf7 >= slave >= 0x00:\n            self._slaves[slave] = context", "        if 0xff >= slave >= 0x00:\n            self._slaves[slave] = context"),
  ('c18-sparse-reset-list', 'C18', 'pymodbus/datastore/store.py', "        self.values = dict.fromkeys(self.values, self.default_value)", "        self.values = [self.default_value] * len(self.values)"),
  ('c18-fx-map', 'C18', 'pymodbus/interfaces.py', "__fx_mapper = {2: 'd', 4: 'i'}", "__fx_mapper = {2: 'd', 4: 'h'}"),
+ # ---- C20
+ ('c20-space-slack', 'C20', 'pymodbus/mei_message.py', "if self.space_left <= 0:", "if self.space_left < -16:"),
+ ('c20-next-id-unset', 'C20', 'pymodbus/mei_message.py', "            self.next_object_id = e.oid\n", "            pass\n"),
+ ('c20-regular-range', 'C20', 'pymodbus/device.py', "DeviceInformation.Regular: lambda c, r, i: c.__gets(r, list(range(i, 0x07))", "DeviceInformation.Regular: lambda c, r, i: c.__gets(r, list(range(i, 0x06))"),
+ ('c20-space-253', 'C20', 'pymodbus/mei_message.py', "self.space_left = 253 - 6", "self.space_left = 253"),
+ ('c20-extended-skips-80', 'C20', 'pymodbus/device.py', "[x for x in range(i, 0x100) if x not in range(0x07, 0x80)]\n            if", "[x for x in range(i, 0x100) if x not in range(0x07, 0x81)]\n            if"),
+ ('c20-rtu-size', 'C20', 'pymodbus/mei_message.py', "            size += object_length + 2\n            count -= 1", "            size += object_length + 2\n            count -= 2"),
 ]
